@@ -22,7 +22,7 @@ ASSUMPTIONS = [
 NSHARDS = {"quick": 32, "thorough": 64}
 BUDGET_S = {"quick": 240, "thorough": 2400}
 MIN_HITS = {
-    'quick': {"variant": 6185, "expect_accept": 2199, "expect_reject": 3985, "mutation_still_valid": 2007, "family_p2pk": 45, "family_p2pkh": 49, "family_multisig": 98, "lib_signed": 83, "with_separator": 131, "reversed_digest": 192, "legacy_flag": 96, "forkid_flag": 96},
+    'quick': {"variant": 6761, "expect_accept": 2199, "expect_reject": 4561, "mutation_still_valid": 2007, "family_p2pk": 45, "family_p2pkh": 49, "family_multisig": 98, "lib_signed": 83, "with_separator": 131, "reversed_digest": 192, "legacy_flag": 96, "forkid_flag": 96},
     'thorough': {"variant": 307653, "expect_accept": 110476, "expect_reject": 197176, "mutation_still_valid": 100876, "family_multisig": 4819, "lib_signed": 3933, "with_separator": 6889, "reversed_digest": 9600},
 }
 FLAGS = [0x01, 0x02, 0x03, 0x81, 0x82, 0x83, 0x41, 0x42, 0x43, 0xC1, 0xC2, 0xC3]
@@ -294,6 +294,9 @@ def judge(ctx, case):
     for f2 in rnd.sample([f for f in FLAGS if f != s0[-1]], 3):
         add("flag byte swapped", un=unlocking_of([s0[:-1] + bytes([f2])] + sigs[1:]))
     add("flag byte dropped", un=unlocking_of([s0[:-1]] + sigs[1:]))
+    add("flag byte doubled", un=unlocking_of([s0 + s0[-1:]] + sigs[1:]))
+    add("another flag-valued byte inserted before the flag byte", un=unlocking_of([s0[:-1] + bytes([rnd.choice(FLAGS)]) + s0[-1:]] + sigs[1:]))
+    add("non-flag byte inserted before the flag byte", un=unlocking_of([s0[:-1] + b"\x04" + s0[-1:]] + sigs[1:]))
     # signature over the byte-reversed digest
     er = ec.sign_with_k(sc.keys[signers[0]], int.from_bytes(d0[::-1], "big") % ec.N, ec.rfc6979(sc.keys[signers[0]], d0[::-1]))
     add("signature over the byte-reversed digest", un=unlocking_of([ec.der_encode(er[0], er[1]) + bytes([flag])] + sigs[1:]))
